@@ -122,6 +122,12 @@ func (m *SigningProposalFSM) actionPartialSignConfirmationReceived(inEvent fsm.E
 		return
 	}
 
+	// partial signatures made for another batch (e.g. a late answer to a finished one) must not be counted
+	if request.BatchID != m.payload.SigningProposalPayload.BatchID {
+		err = fmt.Errorf("{BatchID} %s does not match the current batch %s", request.BatchID, m.payload.SigningProposalPayload.BatchID)
+		return
+	}
+
 	if !m.payload.SigningQuorumExists(request.ParticipantId) {
 		err = errors.New("{ParticipantId} not exist in quorum")
 		return
